@@ -104,7 +104,13 @@ Init == tid \in 1..Len(Traces) /\ done = FALSE /\ why = ""
 Check == /\ ~done /\ done' = TRUE /\ UNCHANGED tid
          \* label range first: the other clauses index by label
          \* (traces recorded for C15 carry the global tables only: mode = "fix" evaluates the fix clause alone)
-         /\ why' = IF Tr.mode = "fix" THEN (IF ~LabelRangeOK THEN "label_range" ELSE IF FixOK THEN "" ELSE "fix_window")
+         \* (mode = "global": a problem without separately available per-asset problems, e.g. one interval of a split set-up:
+         \*  the clauses that need only the problem's own tables)
+         /\ why' = IF Tr.mode = "global"
+                   THEN (IF ~(G.nc = G.n /\ G.nl = G.n /\ G.nu = G.n /\ (G.ncols = G.n \/ G.ncols = -1)) THEN "size"
+                         ELSE IF ~LabelRangeOK THEN "label_range" ELSE IF ~StepOK THEN "step_on_grid" ELSE IF ~BoundsOK THEN "bounds_nan"
+                         ELSE IF ~UnmappedInertOK THEN "unmapped_inert" ELSE IF ~NodalOK THEN "nodal_rows" ELSE "")
+                   ELSE IF Tr.mode = "fix" THEN (IF ~LabelRangeOK THEN "label_range" ELSE IF FixOK THEN "" ELSE "fix_window")
                    ELSE IF ~SizeOK THEN "size" ELSE IF ~LabelRangeOK THEN "label_range" ELSE FirstFailed
 Spec == Init /\ [][Check]_vars
 Mark == TLCSet(tid, IF ~done THEN TLCGet(tid) ELSE IF why = "" THEN <<1, "accepted">> ELSE <<1, why>>)
